@@ -365,12 +365,19 @@ class IntervalTier(textgrid_tier.TextgridTier):
                     )
 
             # Special case: an interval that spanned the deleted
-            # section
+            # section (two different intervals that merely end up
+            # adjacent with the same label stay separate)
+            spannedSection = (
+                collisionMode == constants.EraseCollision.TRUNCATE
+                and len(matchList) == 1
+                and matchList[0].start < start
+                and matchList[0].end > end
+            )
             for i in range(0, len(newEntryList) - 1):
                 rightEdge = newEntryList[i].end == start
                 leftEdge = newEntryList[i + 1].start == start
                 sameLabel = newEntryList[i].label == newEntryList[i + 1].label
-                if rightEdge and leftEdge and sameLabel:
+                if spannedSection and rightEdge and leftEdge and sameLabel:
                     newInterval = Interval(
                         newEntryList[i].start,
                         newEntryList[i + 1].end,
